@@ -23,7 +23,9 @@ def run(tier):
                            'generated direct DAGs with all/one/N joins (incl. nested joins, joins fed by on-error/on-complete and by '
                            'guards that do not fire) and reverse requires-graphs, run on the real engine under both schedulers and 8 '
                            'schedule policies; non-trivial = distinct runs in which at least one join with >= 2 inbound branches started or failed',
-                           _nontrivial, model_runs=lambda d: ec.catalogue_model_runs(d, tier), strict=True, prescribed=True)
+                           _nontrivial, model_runs=lambda d: ec.catalogue_model_runs(d, tier), strict=True, prescribed=True,
+                           model_behaviours=lambda d: ec.model_jobs(d, tier, sims=[(None, 2 if tier == 'quick' else 10, 0, 0, ())],
+                                                                    probes=[('join_started_twice', 'diamond_j1_ok', '\\E x \\in Names : IsJoin(x) /\\ Len(ax[x]) > 1', 0, 0, ())]))
 
 
 def replay(path):
